@@ -113,6 +113,9 @@ func escape(s string) string {
 }
 
 func isNumeric(s string) bool {
+	if len(s) > 1 && s[0] == '0' && s[1] != '.' {
+		return false // JSON numbers have no leading zeros; keep as a string
+	}
 	i := 0
 	for ; i < len(s); i++ {
 		r := s[i]
